@@ -167,7 +167,10 @@ class G(object):
                 self.nxlabel = getattr(self, 'nxlabel', 0) + 1
                 it['xlabel'] = 'xl:%d' % self.nxlabel
             items.append(it)
-        return {'t': 'list', 'kind': kind, 'items': items}
+        # what stands between \begin{..} and the first \item: nothing, a comment, or a paragraph break (a blank line or \par there
+        # is legal LaTeX and produces nothing)
+        lead = r.choice(['', '', '', '', '\n', '\\par ', '% Zc\n', ' \n\n ']) if self.o.get('list_lead', True) else ''
+        return {'t': 'list', 'kind': kind, 'items': items, 'lead': lead}
 
     def tabular(self, depth, nested_ok=True):
         r = self.r
@@ -293,6 +296,9 @@ class G(object):
         self.nsec += 1
         node = {'t': 'sec', 'level': level, 'star': o['star'] and r.random() < 0.15, 'title': self.inlines(1 if o['fonts'] else 0, False, r.choice([1, 2]), o['math'], False),
                 'c': self.blocks(depth, r.randint(0, 3)), 'subs': [], 'label': None, 'toc': None}
+        if o.get('short_titles') and not node['star'] and r.random() < o['short_titles']:
+            # \section[short title]{title}: the short form is what tables of contents and navigation print
+            node['toc'] = self.no_bracket(self.inlines(0, False, 1, False, False))
         if o['labels'] and r.random() < 0.5:
             node['label'] = self.newlabel('sec')
             if o.get('late_labels') and r.random() < o['late_labels'] and node['c'] and node['c'][0]['t'] == 'para' and not node['star']:
@@ -432,7 +438,7 @@ def p_blocks(blocks, ind=''):
         if t == 'para':
             out.append(p_inlines(b['c']) + '\n')
         elif t == 'list':
-            s = '\\begin{%s}\n' % b['kind']
+            s = '\\begin{%s}\n' % b['kind'] + b.get('lead', '')
             for it in b['items']:
                 s += '\\item'
                 if 'term' in it:
@@ -561,7 +567,7 @@ def p_tabular(b):
 
 def p_sec(s):
     name = SEC_NAMES[s['level']]
-    out = '\\%s%s{%s}' % (name, '*' if s['star'] else '', p_inlines(s['title']))
+    out = '\\%s%s%s{%s}' % (name, '*' if s['star'] else '', ('[%s]' % p_inlines(s['toc'])) if s.get('toc') else '', p_inlines(s['title']))
     if s.get('label') and s.get('late_label'):
         out += '\n' + p_inlines(s['c'][0]['c']) + '\\label{%s}\n' % s['label'] + (SEP[0] if len(s['c']) > 1 else '') + p_blocks(s['c'][1:])
     else:
